@@ -105,6 +105,10 @@ class PUnit:
                 res.errors.append(f"vacuity guard: in {c.target}: {vc}")
             solver.discharge(rep, timeout_ms=ctx.timeout_ms)
             res.trusted |= set(rep.trusted_used)
+            for ax_name, _ax in getattr(c, "axioms", []):
+                res.trusted.add(f"axiom assumed in the proof of {c.qual}: {ax_name}")
+            if c.note and c.note not in res.assumptions:
+                res.assumptions.append(f"{c.qual}: {c.note}")
             counts = {}
             for ob in rep.obligations:
                 res.obligations += 1
@@ -224,6 +228,57 @@ class LUnit:
                 res.samples.append({"obligation": ob.oid, "kind": "lemma", "status": ob.status, "backend": ob.backend,
                                     "time_s": round(ob.time, 4), "goal": str(ob.goal)[:300]})
         res.wall = time.time() - t0
+        return res
+
+
+class LeanUnit:
+    """certificate of a lemma schema the SMT proofs assume: a Lean 4 + Mathlib file checked by `lean`.  Run in the thorough tier only
+    (2-3 minutes of Mathlib import); the quick tier records that the certificate exists and was not re-run.  A rejected certificate
+    is a checker defect / undecided assumption, never a property violation."""
+    tier = "P"
+
+    def __init__(self, name, path):
+        self.name, self.path = name, path
+
+    def run(self, ctx):
+        import re
+        import shutil
+        import subprocess
+        res = UnitResult(self.name, "P")
+        t0 = time.time()
+        full = os.path.join(VERIF, self.path)
+        try:
+            text = open(full).read()
+        except OSError:
+            res.errors.append(f"certificate {self.path} is missing")
+            return res
+        theorems = re.findall(r"^theorem\s+(\S+)", text, re.M)
+        if re.search(r"\b(sorry|admit)\b|^axiom\b", text, re.M):
+            res.errors.append(f"certificate {self.path} contains sorry/admit/axiom")
+            return res
+        if not ctx.thorough:
+            res.assumptions.append(f"{self.path}: {len(theorems)} Lean theorems ({', '.join(theorems)}) certify the lemma schema; not re-checked in the quick tier")
+            res.wall = time.time() - t0
+            return res
+        lean = shutil.which("lean")
+        if lean is None:
+            res.assumptions.append(f"{self.path}: lean not found; certificate not re-checked")
+            return res
+        try:
+            p = subprocess.run([lean, full], capture_output=True, text=True, timeout=1800)
+        except subprocess.TimeoutExpired:
+            res.undecided.append(f"UNDECIDED certificate {self.path}: lean timed out")
+            return res
+        res.obligations = len(theorems)
+        out = p.stdout + p.stderr
+        ok = p.returncode == 0 and not re.search(r"\berror\b", out)
+        if ok:
+            res.discharged = len(theorems)
+            res.backends["lean-4 + Mathlib"] = len(theorems)
+        else:
+            res.undecided.append(f"UNDECIDED certificate {self.path}: lean rejected it: {out[-400:]}")
+        res.solver_time = res.wall = time.time() - t0
+        res.samples.append({"certificate": self.path, "theorems": theorems, "accepted": ok})
         return res
 
 
